@@ -253,9 +253,9 @@ def _type_worker(args):
                 try:
                     got = cls.parse_exact_size(v.encode('ascii'))
                 except Exception as e:  # noqa
-                    rows_ = attribution.rows_for(combo, ('rejected', type(e).__name__))
-                    acc.violation('spelling:%s:%s:rejected:%s' % (cname, '+'.join(rows_), type(e).__name__),
-                                  '%s spelling %r of %r is rejected (%s)' % (cname, v, text, type(e).__name__), w)
+                    rows_ = attribution.rows_for(combo, ('rejected', core.ename(e)))
+                    acc.violation('spelling:%s:%s:rejected:%s' % (cname, '+'.join(rows_), core.ename(e)),
+                                  '%s spelling %r of %r is rejected (%s)' % (cname, v, text, core.ename(e)), w)
                     continue
                 d1 = canon.dump(got, eq=True)
                 if d1 != d0:
@@ -295,7 +295,7 @@ def _nel_worker(_):
                         try:
                             got = cls.parse_exact_size(v.encode('ascii'))
                         except Exception as e:  # noqa
-                            acc.violation('spelling:NEL:json:rejected:%s' % type(e).__name__, 'JSON spelling %r rejected' % v, w)
+                            acc.violation('spelling:NEL:json:rejected:%s' % core.ename(e), 'JSON spelling %r rejected' % v, w)
                             continue
                         if canon.dump(got, eq=True) != d0:
                             acc.violation('spelling:NEL:json:differs', 'JSON spelling %r parses differently' % v, w)
@@ -326,7 +326,7 @@ def _block_worker(_):
             try:
                 base = HttpHeaderFields.parse_exact_size(base_wire)
             except Exception as e:  # noqa
-                acc.violation('block:canonical_rejected:%s' % type(e).__name__, 'header block rejected', {'kind': 'block', 'wire': base_wire})
+                acc.violation('block:canonical_rejected:%s' % core.ename(e), 'header block rejected', {'kind': 'block', 'wire': base_wire})
                 continue
             d0 = canon.dump(base, eq=True)
             for case in CASES:
@@ -337,7 +337,7 @@ def _block_worker(_):
                     try:
                         got = HttpHeaderFields.parse_exact_size(wire)
                     except Exception as e:  # noqa
-                        acc.violation('block:rejected:%s:%s' % (type(e).__name__, 'trailing_ows' if ows_b else 'leading_ows' if ows_a != ' ' else 'case'),
+                        acc.violation('block:rejected:%s:%s' % (core.ename(e), 'trailing_ows' if ows_b else 'leading_ows' if ows_a != ' ' else 'case'),
                                       'header block spelling rejected: %r' % wire, w)
                         continue
                     if canon.dump(got, eq=True) != d0:
@@ -420,9 +420,9 @@ def history_child():
                 if bytes(classes.class_by_name(qn).parse_exact_size(bytes(o.compose())).compose()) != bytes(o.compose()):
                     d += ':unstable'
             except Exception as e:  # noqa
-                d += ':recompose:' + type(e).__name__
+                d += ':recompose:' + core.ename(e)
         except Exception as e:  # noqa
-            d = 'EXC:' + type(e).__name__
+            d = 'EXC:' + core.ename(e)
         sys.stdout.write(d + '\n')
 
 
@@ -534,7 +534,7 @@ def replay(ctx, w):
         try:
             got = cls.parse_exact_size(w['variant'].encode('ascii'))
         except Exception as e:  # noqa
-            return {'signature': 'spelling:%s:%s:rejected:%s' % (cname, '+'.join(w['rows']), type(e).__name__),
+            return {'signature': 'spelling:%s:%s:rejected:%s' % (cname, '+'.join(w['rows']), core.ename(e)),
                     'what': 'rejected', 'witness': w}
         d0, d1 = canon.dump(base, eq=True), canon.dump(got, eq=True)
         if d0 != d1:
